@@ -4,6 +4,7 @@ package simrt
 // that a seed means the same sequence under every Go toolchain.
 type Rand struct{ s [4]uint64 }
 
+//go:norace
 func splitmix64(x *uint64) uint64 {
 	*x += 0x9e3779b97f4a7c15
 	z := *x
@@ -32,8 +33,10 @@ func NewRand(seed uint64) *Rand {
 	return r
 }
 
+//go:norace
 func rotl(x uint64, k uint) uint64 { return (x << k) | (x >> (64 - k)) }
 
+//go:norace
 func (r *Rand) Uint64() uint64 {
 	res := rotl(r.s[1]*5, 7) * 9
 	t := r.s[1] << 17
@@ -47,6 +50,8 @@ func (r *Rand) Uint64() uint64 {
 }
 
 // Intn returns a value in [0,n). n <= 0 yields 0.
+//
+//go:norace
 func (r *Rand) Intn(n int) int {
 	if n <= 1 {
 		return 0
@@ -54,6 +59,7 @@ func (r *Rand) Intn(n int) int {
 	return int(r.Uint64() % uint64(n))
 }
 
+//go:norace
 func (r *Rand) Int63n(n int64) int64 {
 	if n <= 1 {
 		return 0
@@ -62,6 +68,8 @@ func (r *Rand) Int63n(n int64) int64 {
 }
 
 // Range returns a value in [lo,hi] (inclusive).
+//
+//go:norace
 func (r *Rand) Range(lo, hi int64) int64 {
 	if hi <= lo {
 		return lo
@@ -69,14 +77,20 @@ func (r *Rand) Range(lo, hi int64) int64 {
 	return lo + int64(r.Uint64()%uint64(hi-lo+1))
 }
 
+//go:norace
 func (r *Rand) Float64() float64 { return float64(r.Uint64()>>11) / (1 << 53) }
 
+//go:norace
 func (r *Rand) Bool() bool { return r.Uint64()&1 == 1 }
 
 // Chance is true with probability num/den.
+//
+//go:norace
 func (r *Rand) Chance(num, den int) bool { return r.Intn(den) < num }
 
 // Perm returns a permutation of 0..n-1 (Fisher-Yates).
+//
+//go:norace
 func (r *Rand) Perm(n int) []int {
 	p := make([]int, n)
 	for i := range p {
